@@ -76,8 +76,12 @@ pub fn interp1d_linear_unchecked(
             idx += 1;
         }
 
+        // the scan above stops at the last segment, so a target beyond the last knot has to be
+        // detected separately
+        let above = tgt[i] > x[n - 1];
+
         // out of bounds, optionally extrapolate
-        if idx == 0 || idx > n {
+        if idx == 0 || above {
             match extrapolate {
                 ExtrapolationMode::Panic => panic!(
                     "Target out of bounds, need to extrapolate, but extrapolation mode is panic!"
@@ -85,7 +89,7 @@ pub fn interp1d_linear_unchecked(
                 ExtrapolationMode::Fill(left, right) => {
                     if idx == 0 {
                         interp.push(left);
-                    } else if idx > n {
+                    } else {
                         interp.push(right);
                     }
                 }
@@ -97,10 +101,10 @@ pub fn interp1d_linear_unchecked(
                         interp.push(-slope * (x[0] - tgt[i]) + y[0]);
                     }
                     // extrapolate right
-                    else if idx > n {
+                    else {
                         /* print("extrapolating right ", tgt[i]); */
-                        let slope = (y[n] - y[n - 1]) / (x[n] - x[n - 1]);
-                        interp.push(slope * (tgt[i] - x[n]) + y[n]);
+                        let slope = (y[n - 1] - y[n - 2]) / (x[n - 1] - x[n - 2]);
+                        interp.push(slope * (tgt[i] - x[n - 1]) + y[n - 1]);
                     }
                 }
             }
